@@ -183,6 +183,7 @@ class C10:
         r = get_ex("asan").run(s, cpu=30, wall=120)
         t = by_index(r.trace)
         fails, keys, cc = [], [], {}
+        crashed = False
         for (state, ci, pre), (i0, ic, i1) in zip(subs, marks):
             name = CALLS[ci][0]
             if not self.applicable(state, name, pre):
@@ -194,6 +195,9 @@ class C10:
                 keys.append(h64([state, name, pre]))
             sig = msg = None
             if i0 not in t or i1 not in t or ic not in t:
+                if len(subs) > 1 and crashed:
+                    continue
+                crashed = True
                 if len(subs) > 1:
                     o1 = self.check_case({"subs": [[state, ci, pre]]}, get_ex)
                     if o1.failure:
